@@ -18,6 +18,7 @@ import (
 	"strconv"
 	"strings"
 	"sync"
+	"sync/atomic"
 	"time"
 
 	"github.com/smart-core-os/sc-golang/internal/testproto"
@@ -33,7 +34,7 @@ import (
 type Step struct {
 	K     string   `json:"k"`            // C2S S2C SetH SendH SetT CloseSend RecvEOF CHeader Ret Cancel CtxEnd
 	// CtxEnd: as Cancel, but the handler then goes on with the steps that follow (SetH SendH SetT, S2C = a
-	// SendMsg, RecvEOF = a RecvMsg; what these return to the handler is not recorded) up to its Ret
+	// SendMsg, RecvEOF = a RecvMsg; what SetHeader returns to the handler is not recorded) up to its Ret
 	M     int      `json:"m,omitempty"`  // message payload (C2S, S2C), response payload (Ret ok of unary shapes)
 	MD    [][2]int `json:"md,omitempty"` // metadata pairs (key index, value)
 	Ok    bool     `json:"ok,omitempty"` // Ret: handler returns nil
@@ -351,7 +352,15 @@ type srvCmd struct {
 	m    int
 	md   metadata.MD
 	step Step
+	// the client's context has ended and the handler has seen its own context end: a SendMsg / SendHeader must
+	// fail.  On a real server (settle) the call is repeated for a short while if it succeeds: the transport
+	// cancels the handler's context an instant before it marks the stream as done.
+	settle bool
 }
+
+// how often a SendMsg / SendHeader of a handler that had seen its context end still succeeded on the real
+// server and was repeated (evidence)
+var settleRetries int64
 
 type callCtl struct {
 	shape   string
@@ -375,7 +384,8 @@ type callCtl struct {
 
 type scriptSrv struct {
 	testproto.UnimplementedTestApiServer
-	mu    sync.Mutex
+	settle bool // a real server: see srvCmd.settle
+	mu     sync.Mutex
 	calls map[string]*callCtl
 	stray []string
 }
@@ -455,6 +465,14 @@ func (c *callCtl) interp(o sops) Step {
 			c.mu.Lock()
 			c.sent = append(c.sent, m)
 			c.mu.Unlock()
+			for t0 := time.Now(); cmd.settle && err == nil && time.Since(t0) < stepTimeout/2; {
+				atomic.AddInt64(&settleRetries, 1)
+				time.Sleep(time.Millisecond)
+				m, err = o.send(cmd.m)
+				c.mu.Lock()
+				c.sent = append(c.sent, m)
+				c.mu.Unlock()
+			}
 			c.res <- Obs{K: "sent", Ok: err == nil}
 		case "seth", "sendh", "sett":
 			md := cmd.md
@@ -472,6 +490,11 @@ func (c *callCtl) interp(o sops) Step {
 				ok = o.setH(md) == nil
 			case "sendh":
 				ok = o.sendH(md) == nil
+				for t0 := time.Now(); cmd.settle && ok && time.Since(t0) < stepTimeout/2; {
+					atomic.AddInt64(&settleRetries, 1)
+					time.Sleep(time.Millisecond)
+					ok = o.sendH(md) == nil
+				}
 			default:
 				o.setT(md)
 			}
@@ -748,7 +771,11 @@ func (d *driver) startS(c srvCmd) bool {
 func (d *driver) waitS() (Obs, bool) {
 	select {
 	case o := <-d.ctl.res:
-		if o.K != "sett" && !d.gone {
+		// after the client's context has ended the results of RecvMsg, SendMsg and SendHeader are recorded (they
+		// fail on both transports; on the real server as soon as the transport has marked the stream done, see
+		// srvCmd.settle), the result of SetHeader is not (the wrapper accepts metadata nobody will see, a real
+		// server refuses it)
+		if o.K != "sett" && (!d.gone || o.K != "seth") {
 			d.tr.Server = append(d.tr.Server, o)
 		}
 		return o, true
@@ -919,7 +946,7 @@ func runScenario(sc Scenario, srv *scriptSrv, cc grpc.ClientConnInterface) (tr T
 			d.gone = true
 		case "S2C":
 			if d.gone { // nobody receives any more: the handler's SendMsg returns an error (or not: a real server may not know yet)
-				if d.startS(srvCmd{k: "send", m: st.M}) {
+				if d.startS(srvCmd{k: "send", m: st.M, settle: d.srv.settle}) {
 					d.waitS()
 				}
 				continue
@@ -938,7 +965,7 @@ func runScenario(sc Scenario, srv *scriptSrv, cc grpc.ClientConnInterface) (tr T
 				d.waitS()
 			}
 		case "SendH":
-			if d.startS(srvCmd{k: "sendh", md: mkMD(st.MD), step: st}) {
+			if d.startS(srvCmd{k: "sendh", md: mkMD(st.MD), step: st, settle: d.gone && d.srv.settle}) {
 				d.waitS()
 			}
 		case "SetT":
